@@ -6,7 +6,7 @@ KANI_BOUNDS = {
 }
 
 K_VARINT = ["k_encode_varuint_contract", "k_encode_size_contract", "k_encode_varint_contract",
-            "k_decode_varuint_u32_any_bytes", "k_decode_varuint_u64_any_bytes", "k_decode_varuint_usize_any_bytes",
+            "k_decode_varuint_u32_any_bytes", "k_decode_varuint_u64_any_bytes", "k_decode_varuint_usize_any_bytes", "k_decode_varuint_i32_any_bytes",
             "k_decode_varint_i32_any_bytes", "k_decode_varint_i64_any_bytes",
             "k_varint_roundtrip", "k_varuint_roundtrip"]
 K_FIXED = ["k_fixed_u8", "k_fixed_i8", "k_fixed_u16", "k_fixed_i16", "k_fixed_u32", "k_fixed_i32", "k_fixed_u64",
